@@ -112,6 +112,7 @@ class Extraction:
         self.proofs = []      # (where, stmt text, proof text)
         self.matched = {}     # id -> matched source text
         self.tail = None      # fragment only: expression appended as the return value
+        self.attrs = []
         self.isolation = False  # True: default Verus loop isolation (needed for invariant_except_break / loop ensures)
         self.splice = None    # fragment only: do not emit a fn; paste the text at /*@@SPLICE:<id>*/
 
@@ -647,6 +648,10 @@ def expand(template_path, tree):
             emit("// ---- extracted from %s (%s), line %d" % (f, ex.path, item.line()))
             if not ex.isolation:
                 emit("#[verifier::loop_isolation(false)]")
+            for at in ex.attrs:
+                if not at.startswith("#[verifier::"):
+                    raise SpecError("only #[verifier::..] attributes may be added: " + at)
+                emit(at)
             emit(head)
             for kind in ("requires", "ensures"):
                 cls = [cl for cl in ex.clauses if cl.kind == kind and cl.loop is None]
@@ -766,6 +771,8 @@ def _parse_extract_directive(ex, e):
         ex.tail = e[5:].strip()
     elif e.startswith("splice:"):
         ex.splice = e[7:].strip()
+    elif e.startswith("attr:"):
+        ex.attrs.append(e[5:].strip())
     elif e.startswith("isolation:"):
         ex.isolation = e[10:].strip() == "on"
     elif e == "noret":
